@@ -66,7 +66,12 @@ fn text_node() -> BoxedStrategy<Node> {
 fn seq_strategy(depth: u32) -> BoxedStrategy<Vec<Node>> {
     let leaf = prop::collection::vec(text_node(), 0..3).boxed();
     leaf.prop_recursive(depth, 24, 3, |inner| {
-        let group = prop::collection::vec(inner.clone(), 1..=3).prop_map(Node::Group);
+        let group = prop_oneof![
+            6 => prop::collection::vec(inner.clone(), 1..=3).prop_map(Node::Group),
+            // 2-5 single-character alternatives (what a hasty optimisation would turn into a set)
+            1 => prop::collection::vec(prop::sample::select(vec!["a", "z", "-", "0", "9", ".", "_", "+", "b", "!", "^", "]"]), 2..=5)
+                .prop_map(|cs| Node::Group(cs.into_iter().map(|c| vec![Node::Text(c.to_string())]).collect())),
+        ];
         prop::collection::vec(prop_oneof![2 => text_node(), 3 => group], 1..=4).boxed()
     })
     .boxed()
